@@ -138,7 +138,10 @@ def gen(rng, zero=False, focus=None, negative=False):
         else:
             shape = pick(rng, ['named', 'tuple', 'tuple', 'unit', 'unit'])
         nf = 0 if shape == 'unit' else pick(rng, [0, 1, 1, 2, 2, 3])
-        if kind == 'struct' and nf == 0:
+        if kind == 'struct' and item_inc and not tps and chance(rng, 0.85):
+            # a field-less struct (`struct A;`, `struct A();`, `struct A {}`) is accepted when the item is `incomparable`
+            shape, nf = pick(rng, ['unit', 'tuple', 'named']), 0
+        elif kind == 'struct' and nf == 0:
             nf = 1
         fnames = rng.sample(FIELD_NAMES, nf)
         fields = []
